@@ -5,6 +5,8 @@ correspondence : raw kernels of relaxation.h (rebuilt from the working tree) and
                  bit-exact (dyadic inputs make every float operation exact).
 search         : every public method vs an independent dense NumPy formula of its splitting; CSR vs
                  BSR storage of the same matrix; exact solution is a fixed point; A, b not modified.
+isolation      : every call into the real code runs in a forked worker (see `_isolated`): a crash or hang of a routine
+                 is a reported violation on the concrete case, never the end of the check.
 """
 import hashlib
 
